@@ -1016,7 +1016,9 @@ func (u *Unit) convert(st *State, x Val, from, to types.Type) Val {
 			u.heapSet(st, name, Store(m, r, App(ArrSort(SInt, SInt), f, xt)))
 		}
 		n := u.strLen(xt)
-		return u.ctx.Define("bytes", mkslice(r, IntLit(0), n, n))
+		bs := u.ctx.Define("bytes", mkslice(r, IntLit(0), n, n))
+		u.assume(st, Eq(u.strOfBytes(st, bs, xt.Sort), xt))
+		return bs
 	case xt.Sort == SSlice && (ts == SStr || ts == SString):
 		// []byte -> string: an uninterpreted function of the byte array contents
 		return u.strOfBytes(st, xt, ts)
